@@ -12,7 +12,7 @@ def run(chk):
                 "cell = clause x k with worst statistic/limit; distinct_nontrivial = non-empty cells")
     chk.assumptions = ["constants c frozen at >= 10x the worst value observed on >= 1e5 families of the unchanged tree (lib/thresholds.py)",
                        "a family is one evaluation; families where any member is rejected are inconclusive"]
-    n = simple.run(chk, "c07_decoupling", 6000, 400000, HARNESSES["c07_decoupling"])
+    n = simple.run(chk, "c07_decoupling", 30000, 1000000, HARNESSES["c07_decoupling"])
     chk.min_conclusive = n // 3
     chk.min_cells = 30
     chk.required_cells = ["1L-scaling|k1", "1L-scaling|k32", "2L-total-affine-in-ln-k|k8", "delta2L-excess-envelope|k32", "tan_beta_cor-fixed|k4", "2L-literal-band(reported)"]
